@@ -51,9 +51,6 @@ func (s *Server) VerifCheckPathTree() []string {
 	rec = func(p *pathNode, path string) {
 		n := 0
 		for name, m := range p.childRefs {
-			if len(m) == 0 {
-				out = append(out, fmt.Sprintf("%s: empty ref set kept for %q", path, name))
-			}
 			for ref := range m {
 				n++
 				if got, ok := p.childRefNames[ref]; !ok || got != name {
